@@ -170,6 +170,13 @@ class Interp:
             return sym.f_truthy(v.t)
         if isinstance(v, VRef) and v.cls and v.cls.endswith('?'):
             return v.t != sym.c_none_obj        # optional reference: None is the distinguished null object
+        if isinstance(v, VRef) and v.cls:
+            # a reference to a sized container is truthy iff it is non-empty (OrderedWeakrefSet defines __len__)
+            h = self.summaries.get('len:' + v.cls)
+            if h:
+                return self.num(h(self, v, [], {})) != 0
+            if v.cls in ('OrderedWeakrefSet', 'OrderedSet', 'deque', 'dict', 'list', 'set', 'WeakSet'):
+                return z3.Function('truthy_obj', sym.Obj, z3.BoolSort())(v.t)
         if isinstance(v, (VObj, VRef, VCallable, VFunc, VBound, VBuiltin, VAw, VClass)):
             return z3.BoolVal(True)
         if isinstance(v, VMdEntry):
@@ -1156,6 +1163,9 @@ class Interp:
                     self.raise_('KeyError')
                 return VRef(sym.f_ref_of(base.t), 'RefCounter')
             raise Unsupported('metadata key %r' % (key,))
+        if isinstance(base, VRef) and 'call_default' in self.spec_funcs:
+            # an object outside the model: obj[key] is the uninterpreted call obj.__getitem__(key)
+            return self.spec_funcs['call_default'](self, 'method', (base.cls or '?') + '.__getitem__', base, [key], {})
         raise Unsupported('subscript of %r' % (base,))
 
     def get_slice(self, base, sl, fr):
@@ -1531,7 +1541,7 @@ class Interp:
             if f.name.startswith('logger.'):
                 self.dropped.add('logger.* calls (no-ops that cannot raise)')
                 return NONE
-            h = BUILTINS.get(f.name) or self.spec_funcs.get('builtin_' + f.name)
+            h = self.spec_funcs.get('builtin_' + f.name) or BUILTINS.get(f.name)
             if f.name == 'asyncio.gather' and 'return_exceptions' in kwargs:
                 # gather(..., return_exceptions=True) turns the failure of an awaited branch into an ordinary result: the
                 # exception no longer reaches whoever awaits the gather (C16: failures reach the emitter; C03: the emitter
@@ -2116,6 +2126,11 @@ def _b_min(I, args, kwargs, fr):
 
 def _b_type(I, args, kwargs, fr):
     v = args[0]
+    h = I.spec_funcs.get('type_default')
+    if h:
+        r = h(I, v)
+        if r is not None:
+            return r
     if isinstance(v, VList) or (isinstance(v, VSeq) and v.pytype == 'list'):
         return VClass('list')
     if isinstance(v, VNone):
